@@ -26,7 +26,7 @@ TInit == /\ x = TxInit
 
 TNext == /\ status = "ok"
          /\ l <= Len(Logs[tid])
-         /\ \E y \in {EffOf(x, Logs[tid][l])} : jv' = JudgeE(x, y, Logs[tid][l])
+         /\ \E c \in {StartCrc(x, Logs[tid][l])} : \E y \in {EffOf(x, Logs[tid][l], c)} : jv' = JudgeE(x, y, Logs[tid][l])
          /\ status' = IF jv'.f # "ok" THEN jv'.f
                        ELSE IF l = Len(Logs[tid]) /\ jv'.n.st # "idle" THEN "end_packet_incomplete" ELSE "ok"
          /\ x' = jv'.n
